@@ -13,8 +13,11 @@ the numeric / boolean / index expressions the tables do not cover and on which t
   k_<kind>_is_grouped            is_grouped_taxa / is_grouped_vrnt: the conjunction of four `is not None` tests
   k_<cls>_skeys                  lexsort_<kind>: the default key tuple as field indices; the LAST key is numpy.lexsort's
                                  primary key and must be the group label array for group_<kind> to produce a partition
-  k_<kind>_wrap_{insert,incorp}  insert_<kind>/incorp_<kind>: `if isinstance(obj, (int, numpy.integer)): obj = [obj]`
-                                 before the first numpy.insert (C03_insert_scalar_as_list, C03_old_scalar_insert_refuted)
+  k_<kind>_wrap_{insert,incorp}  insert_<kind>/incorp_<kind>: `if <scalar test on obj>: obj = [obj]` before the first numpy.insert;
+                                 the TEST is translated as a boolean expression over what it asks of obj (Python int, numpy
+                                 integer scalar, ndarray, integer dtype, ndim): it must fire on every scalar form of an index
+                                 (int, numpy integer, 0-d integer array) and on no other (Proofs/C03_Kernel.v kernel_wraps;
+                                 C03_kernel_insert_scalar, C03_old_zero_dim_insert_refuted, C03_old_scalar_insert_refuted)
   k_<kind>_prec_<op>             adjoin/insert/append/incorp _<kind>: for a matrix-typed `values`, label argument X is
                                  `X if given else values.<attribute>`: the table (field -> attribute read) in field order
                                  (model: eff_lab; the seeded change `append-taxa-grp-precedence` is of this kind)
@@ -188,6 +191,50 @@ def k_skeys(repo, defs):
 
 
 # ------------------------------------------------------------------------------------------------ scalar index wrap + label precedence
+# the tests the scalar-index guard of insert_<kind> / incorp_<kind> may make on `obj` (Model/C03_IndexForm.v: f_is_int ...)
+GUARD_TYPES = {"int": "is_int", "numpy.integer": "is_npint", "numpy.ndarray": "is_ndarray"}
+GUARD_TESTS = ["is_int", "is_npint", "is_ndarray", "is_intdtype"]
+
+
+def scalar_guard(test, where):
+    """the test of `if <test>: obj = [obj]` as a boolean expression over the tests of GUARD_TESTS and `obj.ndim`:
+    isinstance(obj, T) / isinstance(obj, (T1, T2, ...)) with T in GUARD_TYPES, numpy.issubdtype(obj.dtype, numpy.integer),
+    comparisons of obj.ndim with literals, and / or / not.  An attribute of obj may only be read to the right of
+    `isinstance(obj, numpy.ndarray) and` (Python evaluates left to right and would raise on a list); anything else fails closed."""
+    import copy
+
+    def protected(node, prot):
+        if isinstance(node, ast.BoolOp) and isinstance(node.op, ast.And):
+            for v in node.values:
+                protected(v, prot)
+                if src(v) == "isinstance(obj, numpy.ndarray)":
+                    prot = True
+        elif isinstance(node, ast.Attribute) and src(node.value) == "obj":
+            if not prot:
+                raise U("%s: the scalar test reads %s of an index that need not be an ndarray" % (where, src(node)))
+        else:
+            for ch in ast.iter_child_nodes(node):
+                protected(ch, prot)
+    protected(test, False)
+
+    class T(ast.NodeTransformer):
+        def visit_Call(self, node):
+            f = src(node.func)
+            if f == "isinstance" and len(node.args) == 2 and not node.keywords and src(node.args[0]) == "obj":
+                ts = node.args[1].elts if isinstance(node.args[1], ast.Tuple) else [node.args[1]]
+                bad = [src(t) for t in ts if src(t) not in GUARD_TYPES]
+                if bad or not ts:
+                    raise U("%s: the scalar test on obj asks for the types %s (known: %s)" % (where, bad, sorted(GUARD_TYPES)))
+                names = [ast.Name(id=GUARD_TYPES[src(t)], ctx=ast.Load()) for t in ts]
+                return names[0] if len(names) == 1 else ast.BoolOp(op=ast.Or(), values=names)
+            if f == "numpy.issubdtype" and len(node.args) == 2 and not node.keywords and src(node.args[0]) == "obj.dtype" \
+                    and src(node.args[1]) == "numpy.integer":
+                return ast.Name(id="is_intdtype", ctx=ast.Load())
+            raise U("%s: unexpected call %s in the scalar test on obj" % (where, src(node)))
+    e = ast.fix_missing_locations(T().visit(copy.deepcopy(test)))
+    return P.to_coq(e, P.Ctx("Z", {"obj.ndim": "ndim"}, bool_env={n: n for n in GUARD_TESTS}), "bool")
+
+
 def k_binary(repo, defs):
     for kind, rel, cls in (("taxa", TAXA, "DenseTaxaMatrix"), ("vrnt", VRNT, "DenseVariantMatrix"), ("trait", TRAIT, "DenseTraitMatrix")):
         fields = FIELDS[kind]
@@ -226,19 +273,20 @@ def k_binary(repo, defs):
                 first_np = min([n.lineno for n in ast.walk(fn) if isinstance(n, ast.Call) and src(n.func) == "numpy.insert"] or [0])
                 if not first_np:
                     raise U("%s: no numpy.insert call" % where)
-                wraps = [s for s in fn.body if isinstance(s, ast.If) and src(s.test).replace(" ", "") == "isinstance(obj,(int,numpy.integer))"]
+                assigns_obj = lambda n: isinstance(n, (ast.Assign, ast.AugAssign)) and \
+                    any(src(t) == "obj" for t in (n.targets if isinstance(n, ast.Assign) else [n.target]))
+                wraps = [s for s in fn.body if isinstance(s, ast.If) and any(assigns_obj(n) for n in ast.walk(s))]
                 if len(wraps) > 1:
-                    raise U("%s: more than one scalar test on obj" % where)
+                    raise U("%s: more than one conditional assignment to obj" % where)
                 if wraps and (wraps[0].orelse or len(wraps[0].body) != 1 or src(wraps[0].body[0]) != "obj = [obj]" or wraps[0].lineno > first_np):
-                    raise U("%s: the scalar test on obj does not have the form `obj = [obj]` before numpy.insert" % where)
-                others = [s for s in stmts(fn) if isinstance(s, (ast.Assign, ast.AugAssign)) and
-                          any(src(t) == "obj" for t in (s.targets if isinstance(s, ast.Assign) else [s.target]))
-                          and not (wraps and s is wraps[0].body[0])]
+                    raise U("%s: the scalar test on obj does not have the form `if <test>: obj = [obj]` before numpy.insert" % where)
+                others = [s for s in stmts(fn) if assigns_obj(s) and not (wraps and s is wraps[0].body[0])]
                 if others:
                     raise U("%s: obj is reassigned elsewhere: %s" % (where, src(others[0])))
-                body = "match o with OInt i => OList [i] | _ => o end" if wraps else "o"
-                defs.append(P.definition("k_%s_wrap_%s" % (kind, op), [("o", "objarg")], "objarg", body,
-                                         "%s: %s" % (where, "if isinstance(obj, (int, numpy.integer)): obj = [obj]   (before numpy.insert)" if wraps
+                body = "guarded_wrap %s o" % scalar_guard(wraps[0].test, where) if wraps else "Some o"
+                defs.append(P.definition("k_%s_wrap_%s" % (kind, op), [(n, "bool") for n in GUARD_TESTS] + [("ndim", "Z"), ("o", "objarg")],
+                                         "option objarg", body,
+                                         "%s: %s" % (where, "if %s: obj = [obj]   (before numpy.insert)" % src(wraps[0].test) if wraps
                                                      else "NO scalar-index wrap before numpy.insert")))
 
 
@@ -401,6 +449,6 @@ def translate(repo, gen_dir):
     k_masked(repo, defs)
     k_square(repo, defs)
     text = (P.HEADER % "harness/translate/c03_kernel.py") + \
-        "From Coq Require Import ZArith Bool List.\nFrom PV Require Import Lib.Common Model.C03_LMat.\nImport ListNotations.\nLocal Open Scope Z_scope.\n\n" + "\n".join(defs)
+        "From Coq Require Import ZArith Bool List.\nFrom PV Require Import Lib.Common Model.C03_LMat Model.C03_IndexForm.\nImport ListNotations.\nLocal Open Scope Z_scope.\n\n" + "\n".join(defs)
     P.write_if_changed(os.path.join(gen_dir, "C03_Kernel.v"), text)
     return {"file": "Gen/C03_Kernel.v", "definitions": len(defs), "sha256": hashlib.sha256(text.encode()).hexdigest()[:16]}
